@@ -183,12 +183,22 @@ def run_multi(case):
     X, y = build_frame(case)
     res = {"violations": [], "sample": dict(case)}
     viol = res["violations"]
-    cols = list(case["qcols"])
-    sel = ClassificationSelector(case["n_best"], quantitative_features=cols, quantitative_measures=[kruskal_measure, R_measure], thresh_kruskal=1e18, thresh_corr=1)
-    got = S.quiet(sel.select, X.copy(), y.copy())
     yl = y.tolist()
+    if case["measures"] == ["cramerv", "tschuprowt"]:
+        from AutoCarver.selectors.measures import cramerv_measure, tschuprowt_measure
+
+        cols = list(case["lcols"])
+        sel = ClassificationSelector(case["n_best"], qualitative_features=cols, qualitative_measures=[cramerv_measure, tschuprowt_measure], thresh_cramerv=1e18, thresh_corr=1)
+        fns = (lambda a, b: S.cramerv(a, b)[1], lambda a, b: S.tschuprowt(a, b)[1])
+        if case["target"] == "binary":  # 2x2 tables may be Yates-corrected: keep to the uncorrected convention only when no column is binary
+            fns = (lambda a, b: S.cramerv(a, b)[0 if len({v for v in a if not S.isnan(v)}) == 2 else 1], lambda a, b: S.tschuprowt(a, b)[0 if len({v for v in a if not S.isnan(v)}) == 2 else 1])
+    else:
+        cols = list(case["qcols"])
+        sel = ClassificationSelector(case["n_best"], quantitative_features=cols, quantitative_measures=[kruskal_measure, R_measure], thresh_kruskal=1e18, thresh_corr=1)
+        fns = (S.kruskal_by_target, S.eta_by_target)
+    got = S.quiet(sel.select, X.copy(), y.copy())
     ms = []
-    for fn in (S.kruskal_by_target, S.eta_by_target):
+    for fn in fns:
         m = {}
         for c in cols:
             col = X[c].tolist()
@@ -207,7 +217,7 @@ def run_multi(case):
         if last[a] < last[b] - TOL * max(1, abs(last[b])):
             viol.append({"kind": "multi:order", "what": f"two measures: not ordered by the last measure: {a}={last[a]:.5g} before {b}={last[b]:.5g}"})
             break
-    names = ["kruskal", "R"]
+    names = list(case["measures"])
     for mi, m in enumerate(ms):
         for f in valid:
             if f in got:
@@ -331,6 +341,11 @@ def enumerate_cases(tier, seed):
                     for qs in itertools.combinations(mq, ksz):
                         for n_best in (1, 2):
                             cases.append({"selector": selector, "target": target, "qcols": list(qs), "lcols": [], "n_best": n_best, "thresh_corr": 1, "measures": ["kruskal", "R"]})
+            if selector == "classification":  # two chi2-based measures on qualitative columns with different numbers of categories
+                ml = ["qcopy", "qcoarse", "qnoisy", "qindep", "qindep3", "qnan"]
+                for ls in itertools.combinations(ml, 3):
+                    for n_best in (1, 2):
+                        cases.append({"selector": selector, "target": target, "qcols": [], "lcols": list(ls), "n_best": n_best, "thresh_corr": 1, "measures": ["cramerv", "tschuprowt"]})
             # colsample < 1: every outcome of shuffle (explored through the seam)
             for qs in qsets[:: 9 if tier == "quick" else 4]:
                 for n_best in (2, 3):
